@@ -611,14 +611,16 @@ func handleInputStream(s *Session, handler Handler) (err error) {
 				c: readerChan.c,
 			}:
 				<-readerChan.c
+				// Consume the rest of the stream before continuing the loop.
+				_, err = xmlstream.Copy(discard, inner)
+				if err != nil {
+					return err
+				}
+				return nil
 			case <-readerChan.ctx.Done():
+				// Nobody is waiting for this response anymore: let the handler have
+				// it like any other response that cannot be matched to a request.
 			}
-			// Consume the rest of the stream before continuing the loop.
-			_, err = xmlstream.Copy(discard, inner)
-			if err != nil {
-				return err
-			}
-			return nil
 		}
 	}
 
